@@ -163,7 +163,12 @@ package spynode
 //@   opt partial = 1
 //@   opt abstract = AddTransaction TxTracker.Remove FetchTxState SaveTxState fetchSpentOutputs
 //@   requires pbase(node) && tx.Msg != nil
+//@   opt track = MarkUnsafe
 //@   loop * invariant pbase(node)
+//@   loop 0 invariant pbase(node) && 0 <= _i && _i <= len(conflicts) && ncalls(MarkUnsafe) == _i
+//@   loop 1 invariant pbase(node) && sinceloop(ncalls(MarkUnsafe) == old(ncalls(MarkUnsafe)))
+//@   assert conflicts_marked_before_filtering at call TxRepository.Remove : [C05 C07] ncalls(MarkUnsafe) == len(conflicts)
+//@   assert conflicts_marked_before_delivery at call TxRepository.Add : [C05 C07] ncalls(MarkUnsafe) == len(conflicts)
 //@   assert delivered_once at call HandleTx : [C03] added && Relevant(tx.Msg) && arg2 == txState
 //@   assert double_spend_is_unsafe at call HandleTx : [C05] len(conflicts) > 0 ==> arg2.State.UnSafe && !arg2.State.Safe
 //@   assert safe_needs_vouching at call HandleTx : [C07] arg2.State.Safe ==> len(conflicts) == 0
